@@ -27,8 +27,9 @@ Definition H_mass (T : R) (e : entry) : R := h_particle T e / (molar_mass (e_sp 
 Lemma density_eq_spec (l : list entry) :
   density RNum U (map e_sp l) (map e_n l) = density_spec l.
 Proof.
-  unfold density, density_spec. cbv zeta. rnum. rewrite sum_list_Rsum. f_equal. f_equal.
-  induction l as [|e l IH]; [reflexivity|]. cbn [map combine]. rewrite IH. reflexivity.
+  unfold density, density_spec. cbv zeta. rnum. rewrite sum_list_Rsum. f_equal.
+  (* robust against commuting the product in the source: termwise by ring, not by syntactic identity *)
+  induction l as [|e l IH]; [reflexivity|]. cbn [map combine Rsum]. rewrite IH. cbn [e_n e_sp fst snd]. ring.
 Qed.
 
 Lemma species_enthalpies_eq_spec (T : R) (l : list entry) :
